@@ -900,6 +900,7 @@ structure Obs (β : Type) where
   valid : Bool
   cells : Arr β
   glob : List β
+  deriving DecidableEq
 
 def observeD (m : Mode) (D : Dims) (T : Tables α) (s : St α) (kw : String) : Option (Obs α) :=
   match sget T.dbl kw with
@@ -922,6 +923,7 @@ structure Result (α : Type) where
   act : List Bool
   dbl : List (String × Option (Obs α))
   int : List (String × Option (Obs Int))
+  deriving DecidableEq
 
 def observe (m : Mode) (D : Dims) (T : Tables α) (s : St α) : Result α :=
   ⟨s.act, T.dbl.map (fun p => (p.1, observeD m D T s p.1)),
